@@ -53,6 +53,15 @@ func c13World_(ctx *Ctx) (*c13World, error) {
 	for i := 0; i < 2; i++ {
 		w.units = append(w.units, schema.RandomUnit(ctx.Seed, i, ctx.AvoidSet()))
 	}
+	// files whose names are not clean relative paths (the plugin protocol does not forbid them)
+	for i, name := range []string{"/verifabs/protos/absname.proto", "../../../up/relname.proto"} {
+		f := schema.NewFile(name, fmt.Sprintf("verif.oddname%d", i), fmt.Sprintf("%soddname%d", schema.GoRoot, i))
+		m := f.Msg("Odd")
+		m.F("a", 1, schema.S(schema.Int32))
+		m.Map("m", 2, schema.String, schema.S(schema.Bool))
+		f.Msg("Other").F("o", 1, schema.M(fmt.Sprintf("verif.oddname%d.Odd", i)))
+		w.units = append(w.units, &schema.Unit{Name: fmt.Sprintf("oddname%d", i), File: f, Label: []string{"file name that is not a clean relative path"}})
+	}
 	var protos []*descriptorpb.FileDescriptorProto
 	for _, u := range w.units {
 		protos = append(protos, u.File.P)
